@@ -55,13 +55,6 @@ Definition check_corr (c : case) : bool :=
 Definition val_close (tol : Q) (a : option Q) (b : Q) : bool :=
   match a with Some x => Qabs_le x b tol | None => false end.
 
-Fixpoint all2b {A B} (f : A -> B -> bool) (a : list A) (b : list B) : bool :=
-  match a, b with
-  | [], [] => true
-  | x :: a', y :: b' => f x y && all2b f a' b'
-  | _, _ => false
-  end.
-
 Definition hist_matches (tol : Q) (h : hist_t) (st : steps_t) : bool :=
   all2b (fun (a : Q * list (option Q)) (b : Q * list Q) =>
            Qeq_bool (fst a) (fst b) && all2b (val_close tol) (snd a) (snd b)) h st.
